@@ -28,7 +28,7 @@ func (c06) Technique() string {
 	return "deterministic simulation with storage fault injection: fault-free run compares the set of blocks requested at the simulated store with the entity's block set from an independent model; then an exhaustive single-block fault sweep (not-found, I/O error at open, I/O error mid-stream) over every block of the entity, k-th-load-fails for every k, and seeded 2-3 block subsets must each end in an error"
 }
 func (c06) Rule() string {
-	return "one evaluation = one execution of one access path (unixfs-preload reifier on the loaded root; WalkMatching with MatchUnixFSPreloadSelector; WalkMatching with MatchUnixFSEntitySelector + BytesConsumingMatcher; each optionally reached through UnixFSPathSelectorBuilder from a parent directory) under one fault plan; per seeded entity the plan space {every entity block} x {3 kinds} + {k-th load} + subsets is enumerated completely; non-trivial = entity has >= 2 blocks and (fault-free) there are non-entity blocks reachable from it, or (faulted) the fault fired; distinct = distinct (access path, fault kind, outcome, seam event sequence) signature"
+	return "one evaluation = one execution of one access path (unixfs-preload reifier on the loaded root; WalkMatching with MatchUnixFSPreloadSelector; WalkMatching with MatchUnixFSEntitySelector + BytesConsumingMatcher; each optionally reached through UnixFSPathSelectorBuilder from a parent directory; link system with or without NodeReifier) on a file, sharded or plain directory under one fault plan; per seeded entity the plan space {every entity block} x {3 kinds} + {the same with well-known error values} + {k-th load once, strided above ~3M loads} + {store goes away at load k} + block subsets + {access twice on one root object with a block removed in between} is enumerated; non-trivial = entity has >= 2 blocks and (fault-free) there are non-entity blocks reachable from it, or (faulted) the fault fired; distinct = distinct (access path, fault kind, outcome, seam event sequence) signature"
 }
 func (c06) Assumptions() []string {
 	return []string{
@@ -324,6 +324,11 @@ func (c06) Run(ts *tape.Set, tier Tier) *Result {
 	}
 	if nLoads > 1 {
 		plans = append(plans, faultPlan{kind: kinds[nLoads%3], kth: nLoads - 1, after: 3})
+	}
+	for _, k := range []int{1, nLoads / 2, nLoads - 1} {
+		if k >= 1 && k < nLoads {
+			plans = append(plans, faultPlan{kind: store.EIOOpen, kth: k, onward: true, flavour: []int{0, 6}[k%2]})
+		}
 	}
 	pr := tape.NewSplitMix(planSeed)
 	if len(order) >= 3 {
